@@ -16,7 +16,10 @@
 (* Operand type shapes (Shapes below): i1 i8 i64 i129; half float double   *)
 (* x86_fp80; i8* in address spaces 0 and 1; <2 x T> and <vscale x 2 x T>   *)
 (* of these; [2 x T]; literal, packed and identified structs; pointers to  *)
-(* functions with and without varargs.  The constant-expression kinds are  *)
+(* functions with and without varargs; address spaces AS are a dimension   *)
+(* of every pointer operand; getelementptr is a kind of this table with    *)
+(* plain index forms (its index forms are C07's).  The constant-expression *)
+(* kinds are                                                               *)
 (* the ones the library represents (ir/constant/expr_*.go).                *)
 (*                                                                         *)
 (* Invariants (TypesRes.cfg) restate the sentences of the property about   *)
@@ -46,7 +49,11 @@ UR == [s |-> Body(FALSE, <<I32, TArr(2, I8), TPtr(S, 0)>>),
 
 I16 == TInt(16)   I129 == TInt(129)
 Half == TFloat("half")   Float == TFloat("float")   Double == TFloat("double")   FP80 == TFloat("x86_fp80")
+\* ADDRESS SPACES are a dimension of every pointer-typed operand and of every kind whose result
+\* type mentions a pointer or derives from one: 0 and 1 (thorough: also 5).
+AS == {0, 1} \cup (IF Tier = "quick" THEN {} ELSE {5})
 P0 == TPtr(I8, 0)   P1 == TPtr(I8, 1)
+PtrsTo(t) == {TPtr(t, as) : as \in AS}
 V2(t)  == TVec(FALSE, 2, t)
 VS2(t) == TVec(TRUE, 2, t)
 \* the thorough tier adds vectors of length 4
@@ -56,7 +63,7 @@ Lift(ts) == ts \cup {V2(t) : t \in ts} \cup {VS2(t) : t \in ts}
 \* the thorough tier adds two more integer widths and the two remaining floating-point kinds
 IntS == {I1, I8, I64, I129} \cup (IF Tier = "quick" THEN {} ELSE {I16, I32})
 FPS  == {Half, Float, Double, FP80} \cup (IF Tier = "quick" THEN {} ELSE {TFloat("fp128"), TFloat("ppc_fp128")})
-PtrS == {P0, P1}
+PtrS == PtrsTo(I8)
 IntT == Lift(IntS)          \* integer or vector of integers
 FPT  == Lift(FPS)
 PtrT == Lift(PtrS)
@@ -65,7 +72,8 @@ VecT == (IntT \cup FPT \cup PtrT) \ (IntS \cup FPS \cup PtrS)
 Lit    == TStruct(FALSE, <<I8, I64>>)
 Packed == TStruct(TRUE, <<I8, I64>>)
 Nest   == TStruct(FALSE, <<I8, TArr(2, TStruct(FALSE, <<I64, Half>>))>>)
-Aggs   == {TArr(2, I64), TArr(2, P1), Lit, Packed, S, Q, Nest, TArr(2, S)}
+PtrMembers == TStruct(FALSE, <<P1, V2(P1), TPtr(S, 1)>>)     \* pointer members in a non-zero address space
+Aggs   == {TArr(2, I64), TArr(2, P1), Lit, Packed, S, Q, Nest, TArr(2, S), PtrMembers}
 FnPtrs == {TPtr(TFunc(I32, <<I8>>, FALSE), 0), TPtr(TFunc(I32, <<I8>>, TRUE), 0), TPtr(TFunc(TVoid, <<>>, FALSE), 1)}
 \* every first-class value shape
 Shapes == IntT \cup FPT \cup PtrT \cup Aggs \cup FnPtrs \cup {V2(TPtr(TFunc(TVoid, <<>>, TRUE), 0))}
@@ -95,14 +103,17 @@ CastPairs(kind) ==
     [] kind = "fpext"    -> LiftPairs({<<Half, Float>>, <<Float, Double>>, <<Double, FP80>>})
     [] kind \in {"fptoui", "fptosi"} -> LiftPairs({<<Half, I8>>, <<Double, I64>>, <<FP80, I129>>, <<Float, I1>>})
     [] kind \in {"uitofp", "sitofp"} -> LiftPairs({<<I8, Half>>, <<I64, Double>>, <<I129, FP80>>, <<I1, Float>>})
-    [] kind = "ptrtoint" -> LiftPairs({<<P0, I64>>, <<P1, I8>>, <<TPtr(S, 0), I129>>})
-    [] kind = "inttoptr" -> LiftPairs({<<I64, P0>>, <<I8, P1>>, <<I129, TPtr(S, 1)>>})
-    [] kind = "bitcast"  -> LiftPairs({<<I64, Double>>, <<Half, I16>>, <<P0, TPtr(I64, 0)>>, <<P1, TPtr(S, 1)>>})
+    [] kind = "ptrtoint" -> LiftPairs({<<P0, I64>>, <<P1, I8>>, <<TPtr(S, 0), I129>>} \cup {<<p, I64>> : p \in PtrS})
+    [] kind = "inttoptr" -> LiftPairs({<<I64, P0>>, <<I8, P1>>, <<I129, TPtr(S, 1)>>} \cup {<<I64, p>> : p \in PtrS})
+    [] kind = "bitcast"  -> LiftPairs({<<I64, Double>>, <<Half, I16>>} \cup {<<TPtr(I8, as), TPtr(S, as)>> : as \in AS}
+                                      \cup {<<TPtr(I8, as), TPtr(I64, as)>> : as \in AS})
                             \cup {<<V2(I32), I64>>, <<I64, V2(I32)>>, <<V2(I32), V2(Float)>>, <<VS2(I32), VS2(Float)>>,
                                   <<TPtr(TFunc(I32, <<I8>>, TRUE), 0), P0>>, <<V2(P0), V2(TPtr(TFunc(TVoid, <<>>, FALSE), 0))>>}
-    [] kind = "addrspacecast" -> LiftPairs({<<P0, P1>>, <<P1, P0>>, <<TPtr(S, 1), TPtr(S, 0)>>})
+    [] kind = "addrspacecast" -> LiftPairs({<<TPtr(I8, a), TPtr(I8, b)>> : a, b \in AS} \cup {<<TPtr(S, 1), TPtr(S, 0)>>})
+                                 \ {<<p, p>> : p \in Lift(PtrS)}
 
-RetTypes == {TVoid, I8, Double, P1, V2(I64), VS2(I64), Lit, S, TArr(2, I64), TPtr(TFunc(TVoid, <<>>, FALSE), 0)}
+RetTypes == {TVoid, I8, Double, V2(I64), VS2(I64), Lit, S, TArr(2, I64), TPtr(TFunc(TVoid, <<>>, FALSE), 0),
+             V2(P1), VS2(P1), TStruct(FALSE, <<P1, I8>>), TPtr(TFunc(TVoid, <<>>, FALSE), 1)} \cup PtrS
 \* Call-like cases: the operand list (callee type = pointer to function, then the argument
 \* types passed) and the SPELLING of the callee type in the instruction, x.sp:
 \*    "short"  `call RET %f(args)`          -- only the return type; LLVM infers a non-variadic
@@ -122,9 +133,37 @@ CallCases(kind, form, rets) ==
 
 Masks(v) == IF v.sc THEN {TVec(TRUE, 2, I32), TVec(TRUE, 4, I32)} ELSE {TVec(FALSE, 2, I32), TVec(FALSE, 4, I32), TVec(FALSE, 1, I32)}
 
+(***************************************************************************)
+(* getelementptr in this table: the result type for the plain index forms  *)
+(* (none, an SSA scalar, constants stepping into an aggregate, an SSA or    *)
+(* zeroinitializer vector) over pointer / fixed / scalable vector bases in  *)
+(* every address space.  The full analysis of index forms is C07's         *)
+(* (TypesGep.tla); here getelementptr is one more row of "every            *)
+(* instruction", with the address-space and vector dimensions of the base. *)
+(***************************************************************************)
+GepElems == {I8, TArr(2, I32), S, Lit}
+GepBases(e) == UNION {{TPtr(e, as), V2(TPtr(e, as)), VS2(TPtr(e, as))} : as \in AS}
+GepIdxLists == { <<>>,
+                 <<Idx("ssa", 64, -1, 0, FALSE)>>,
+                 <<Idx("int", 64, 0, 0, FALSE), Idx("int", 32, 1, 0, FALSE)>>,
+                 <<Idx("ssa", 64, -1, 2, FALSE)>>,
+                 <<Idx("ssa", 64, -1, 2, TRUE)>>,
+                 <<Idx("zeroinit", 64, 0, 2, FALSE)>>,
+                 <<Idx("int", 64, 0, 0, FALSE), Idx("ssa", 64, -1, 2, FALSE)>>,
+                 <<Idx("int", 32, 0, 0, FALSE), Idx("int", 32, 1, 0, FALSE), Idx("int", 64, 1, 0, FALSE)>> }
+IdxType(ix) == IF ix.vec = 0 THEN TInt(ix.w) ELSE TVec(ix.sc, ix.vec, TInt(ix.w))
+GepCases ==
+  UNION {UNION {UNION {
+     IF GepOK(UR, e, b, l)
+     THEN LET ops == <<b>> \o [i \in 1..Len(l) |-> IdxType(l[i])]
+              x   == [ty |-> e, gidx |-> l]
+          IN {C("getelementptr", "inst", ops, x)}
+              \cup (IF \E i \in 1..Len(l) : l[i].f = "ssa" THEN {} ELSE {C("getelementptr", "cexpr", ops, x)})
+     ELSE {} : l \in GepIdxLists} : b \in GepBases(e)} : e \in GepElems}
+
 Kinds == UnaryKinds \cup IntBinKinds \cup FPBinKinds \cup CastKinds \cup CallKinds \cup TokenKinds
          \cup {"icmp", "fcmp", "extractelement", "insertelement", "shufflevector", "extractvalue", "insertvalue",
-               "alloca", "load", "cmpxchg", "atomicrmw", "phi", "select", "freeze", "va_arg", "landingpad"}
+               "alloca", "load", "getelementptr", "cmpxchg", "atomicrmw", "phi", "select", "freeze", "va_arg", "landingpad"}
 
 CasesOf(kind) ==
   CASE kind = "fneg" -> UNION {BothForms(kind, <<t>>, None) : t \in FPT}
@@ -136,13 +175,14 @@ CasesOf(kind) ==
     [] kind = "extractelement" -> UNION {BothForms(kind, <<v, I32>>, None) : v \in VecT} \cup {C(kind, "inst", <<V2(I8), I64>>, None)}
     [] kind = "insertelement"  -> UNION {BothForms(kind, <<v, v.e, I32>>, None) : v \in VecT}
     [] kind = "shufflevector"  -> UNION {UNION {BothForms(kind, <<v, v, m>>, None) : m \in Masks(v)}
-                                           : v \in {V2(I8), VS2(I8), V2(Double), VS2(Double), V2(P1), VS2(P0)}}
+                                           : v \in {V2(I8), VS2(I8), V2(Double), VS2(Double)} \cup {V2(p) : p \in PtrS} \cup {VS2(p) : p \in PtrS}}
     [] kind = "extractvalue"   -> UNION {{C(kind, "inst", <<a>>, [idx |-> p]) : p \in Paths(a, 3)} : a \in Aggs}
     [] kind = "insertvalue"    -> UNION {{C(kind, "inst", <<a, AggPath(UR, a, p)>>, [idx |-> p]) : p \in Paths(a, 3)} : a \in Aggs}
-    [] kind = "alloca" -> {C(kind, "inst", <<>>, [ty |-> t, as |-> as]) : t \in {I8, I129, FP80, P1, V2(I64), VS2(Half), Lit, S, TArr(2, S)} \cup FnPtrs, as \in {0, 1}}
-    [] kind = "load"   -> {C(kind, "inst", <<TPtr(t, as)>>, [ty |-> t]) : t \in {I1, I64, Half, P0, P1, V2(P1), VS2(I8), Lit, Packed, S, TArr(2, I64)} \cup FnPtrs, as \in {0, 1}}
-    [] kind = "cmpxchg" -> {C(kind, "inst", <<TPtr(t, as), t, t>>, None) : t \in {I8, I64, P0, P1, TPtr(S, 0)}, as \in {0, 1}}
-    [] kind = "atomicrmw" -> {C(kind, "inst", <<TPtr(t, as), t>>, [op |-> "xchg"]) : t \in {I8, I64, Float, Double}, as \in {0, 1}}
+    [] kind = "alloca" -> {C(kind, "inst", <<>>, [ty |-> t, as |-> as]) : t \in {I8, I129, FP80, P1, V2(I64), VS2(Half), V2(P1), Lit, S, TArr(2, S)} \cup FnPtrs, as \in AS}
+    [] kind = "load"   -> {C(kind, "inst", <<TPtr(t, as)>>, [ty |-> t]) : t \in {I1, I64, Half, V2(P1), VS2(P1), VS2(I8), TPtr(P1, 0), TPtr(S, 1), Lit, Packed, S, TArr(2, I64), PtrMembers} \cup PtrS \cup FnPtrs, as \in AS}
+    [] kind = "getelementptr" -> GepCases
+    [] kind = "cmpxchg" -> {C(kind, "inst", <<TPtr(t, as), t, t>>, None) : t \in {I8, I64, TPtr(S, 0), TPtr(S, 1)} \cup PtrS, as \in AS}
+    [] kind = "atomicrmw" -> {C(kind, "inst", <<TPtr(t, as), t>>, [op |-> "xchg"]) : t \in {I8, I64, Float, Double}, as \in AS}
                              \cup {C(kind, "inst", <<TPtr(t, 0), t>>, [op |-> "add"]) : t \in {I8, I64}}
                              \cup {C(kind, "inst", <<TPtr(t, 1), t>>, [op |-> "fadd"]) : t \in {Float, Double}}
     [] kind \in CastKinds -> UNION {BothForms(kind, <<p[1]>>, [to |-> p[2]]) : p \in CastPairs(kind)}
@@ -151,12 +191,12 @@ CasesOf(kind) ==
                           \cup UNION {BothForms(kind, <<TVec(t.sc, t.n, I1), t, t>>, None) : t \in VecT}
     [] kind = "freeze" -> {C(kind, "inst", <<t>>, None) : t \in Shapes}
     [] kind = "call"   -> CallCases(kind, "inst", RetTypes)
-    [] kind = "invoke" -> CallCases(kind, "term", {TVoid, I8, VS2(I64), Lit, S})
+    [] kind = "invoke" -> CallCases(kind, "term", {TVoid, I8, VS2(I64), Lit, S, V2(P1)} \cup PtrS)
        \* callbr: the callee is inline assembly (the only callee LLVM 14 allows), one output or none
     [] kind = "callbr" -> {C(kind, "term", <<TPtr(TFunc(r, <<P0>>, FALSE), 0), P0>>, [sp |-> sp])
-                             : r \in {TVoid, I32, I64, P0}, sp \in {"short", "full"}}
-    [] kind = "va_arg" -> {C(kind, "inst", <<P0>>, [ty |-> t]) : t \in {I32, Double, P1, V2(I64), Lit}}
-    [] kind = "landingpad" -> {C(kind, "inst", <<>>, [ty |-> t]) : t \in {TStruct(FALSE, <<P0, I32>>), I32, Lit}}
+                             : r \in {TVoid, I32, I64} \cup PtrS, sp \in {"short", "full"}}
+    [] kind = "va_arg" -> {C(kind, "inst", <<p>>, [ty |-> t]) : p \in PtrS, t \in {I32, Double, V2(I64), V2(P1), Lit, TPtr(S, 1)} \cup PtrS}
+    [] kind = "landingpad" -> {C(kind, "inst", <<>>, [ty |-> t]) : t \in {I32, Lit} \cup {TStruct(FALSE, <<p, I32>>) : p \in PtrS}}
     [] kind \in {"catchpad", "cleanuppad"} -> {C(kind, "inst", <<>>, None)}
     [] kind = "catchswitch" -> {C(kind, "term", <<>>, None)}
 
@@ -189,6 +229,24 @@ AggPathFollowed == /\ At2 /\ cs.kind = "extractvalue" => AggPathOK(UR, cs.ops[1]
                    /\ At2 /\ cs.kind = "insertvalue" => Res = cs.ops[1] /\ cs.ops[2] = AggPath(UR, cs.ops[1], cs.x.idx)
 ShuffleMask == At2 /\ cs.kind = "shufflevector" =>
                  Res.k = "vec" /\ Res.n = cs.ops[3].n /\ Res.sc = cs.ops[3].sc /\ Res.e = cs.ops[1].e /\ cs.ops[3].sc = cs.ops[1].sc
+\* getelementptr: pointer (or vector of pointers, when the base or an index is a vector) to the
+\* reached element, in the ADDRESS SPACE OF THE BASE, also inside a vector result
+GepRow == At2 /\ cs.kind = "getelementptr" =>
+            LET bp == IF cs.ops[1].k = "vec" THEN cs.ops[1].e ELSE cs.ops[1]
+                rp == IF Res.k = "vec" THEN Res.e ELSE Res
+                anyVec == \E i \in 1..Len(cs.ops) : cs.ops[i].k = "vec"
+            IN rp.k = "ptr" /\ rp.as = bp.as /\ (Res.k = "vec" <=> anyVec)
+\* vacuity guard: pointer results in a non-zero address space occur for every pointer-producing kind
+PtrKinds == {"getelementptr", "alloca", "load", "inttoptr", "bitcast", "addrspacecast", "select", "phi", "freeze",
+             "extractelement", "insertelement", "shufflevector", "extractvalue", "insertvalue", "call", "invoke",
+             "callbr", "va_arg", "cmpxchg", "landingpad"}
+RECURSIVE MentionsAS(_)
+MentionsAS(t) == CASE t.k = "ptr" -> t.as # 0 \/ MentionsAS(t.e)
+                   [] t.k \in {"vec", "arr"} -> MentionsAS(t.e)
+                   [] t.k = "struct" -> \E i \in 1..Len(t.fs) : MentionsAS(t.fs[i])
+                   [] OTHER -> FALSE
+ASCovered == \A k \in PtrKinds : \E c \in CasesOf(k) : MentionsAS(ResultType(UR, c.kind, c.ops, c.x))
+ASSUME ASCovered
 SameAsOperand == At2 /\ cs.kind \in UnaryKinds \cup IntBinKinds \cup FPBinKinds \cup {"freeze", "insertelement"} => Res = cs.ops[1]
 
 \* deviation: comparisons and shuffles as implemented (result vector built without `scalable`)
